@@ -148,7 +148,7 @@ def op_text(op):
     if k == "corrupt":
         return "corrupt %d %s" % (op[1], op[2])
     if k == "rmobj":
-        return "rmobj %d" % op[1]
+        return "rmobj %s" % op[1]        # <k>: k-th object; m<k>: k-th manifest
     if k == "clone":
         return " ".join(["clone"] + [hx(d) for d in (op[1] if len(op) > 1 else [])])
     if k == "moveproj":
